@@ -306,8 +306,9 @@ func isFunc(fn *types.Func, pkgPath, recv, name string) bool {
 }
 
 func namedName(t types.Type) string {
+	t = types.Unalias(t)
 	if p, ok := t.(*types.Pointer); ok {
-		t = p.Elem()
+		t = types.Unalias(p.Elem())
 	}
 	if n, ok := t.(*types.Named); ok {
 		return n.Obj().Name()
@@ -316,8 +317,9 @@ func namedName(t types.Type) string {
 }
 
 func namedPkgName(t types.Type) (string, string) {
+	t = types.Unalias(t)
 	if p, ok := t.(*types.Pointer); ok {
-		t = p.Elem()
+		t = types.Unalias(p.Elem())
 	}
 	if n, ok := t.(*types.Named); ok {
 		if n.Obj().Pkg() != nil {
